@@ -508,6 +508,10 @@ func generate(prop, tier string, r *rand.Rand, idx int) any {
 		// counts is Done() and Err(), not how the context was made
 		sc.Ctx.Impl = pick(r, []string{"cause", "custom"})
 	}
+	if sc.Ctx.Kind == "" && r.IntN(6) == 0 {
+		// a context with a deadline a hundred hours away: as good as none
+		sc.Ctx.DeadlineUs = 360_000_000_000 + int64(r.IntN(1000))
+	}
 	if sc.Ctx.Kind == "cancel" && sc.Ctx.DeadlineUs == 0 && r.IntN(4) == 0 {
 		// the cancelled context also carries a deadline, ten hours away: it never
 		// fires, and a context with a deadline is cancelled like any other
@@ -725,6 +729,9 @@ func genC04base(prop, tier string, r *rand.Rand) *Scn {
 		if r.IntN(4) == 0 {
 			g.sc.Via = "flowrun"
 		}
+		// the same flow object is run again after a run that failed: whether a
+		// run fails depends on the callbacks of that run alone
+		g.sc.Runs = 1 + r.IntN(3)
 		return g.sc
 	})
 }
@@ -1079,6 +1086,20 @@ func genC09(prop, tier string, r *rand.Rand) *Scn {
 	fail(f)
 	for k := r.IntN(3); k > 0; k-- {
 		fail(r.IntN(ni))
+	}
+	if r.IntN(8) == 0 {
+		// the deadline falls inside the retry wait of an item whose first attempt
+		// failed: the wait is cut short and the item's slot is an error - the
+		// item is not a success, and it is not forgotten
+		n.Settings = nil
+		setBatchConfig(g, n, 2, 50, conc, stop)
+		for i := range vs.Items {
+			vs.Items[i].Exec = []Outcome{{Pay: "int"}}
+			vs.Items[i].Fb = nil
+		}
+		vs.Items[r.IntN(ni)].Exec = []Outcome{{Fail: pick(r, failKinds)}, {Pay: "int"}}
+		g.sc.Ctx = CtxSpec{Kind: "deadline", DeadlineUs: int64(1000*(1+r.IntN(40)) + 1 + r.IntN(900))}
+		return g.sc
 	}
 	if conc == 0 && r.IntN(8) == 0 {
 		// an exec that panics (with a non-error value): the panic may reach the
